@@ -273,6 +273,27 @@ def logical_records(model):
     return recs, ref
 
 
+def dfsr_marks(raw):
+    """(offset, length, name) of the stored values of a format specification record built by dfsr_record(): entry block values
+    and the size / samples / representation code / mnemonic / units of every channel block."""
+    marks = []
+    p = 2
+    while p + 3 <= len(raw):
+        typ, size, rc = raw[p], raw[p + 1], raw[p + 2]
+        if size:
+            marks.append((p + 3, size, ('val.' if rc == 65 else 'val#.') + f'DFSR.entry{typ}'))
+        else:
+            marks.append((p + 1, 1, f'val#.DFSR.entry{typ}.size'))
+        p += 3 + size
+        if typ == 0:
+            break
+    while p + 40 <= len(raw):
+        marks += [(p, 4, 'val.DFSR.dsb.mnem'), (p + 18, 4, 'val.DFSR.dsb.units'), (p + 28, 2, 'val#.DFSR.dsb.size'),
+                  (p + 33, 1, 'val#.DFSR.dsb.samples'), (p + 34, 1, 'val#.DFSR.dsb.rc')]
+        p += 40
+    return marks
+
+
 def build(model):
     recs, ref = logical_records(model)
     ph = model['phys']
@@ -296,6 +317,16 @@ def build(model):
     layout['what'] = [w for w, _ in recs]
     layout['passes'] = ref
     layout['tif'] = pm['tif']
+    for (what, raw), rl in zip(recs, layout['records']):
+        if what[0] != 'dfsr':
+            continue
+        for off, ln, name in dfsr_marks(raw):
+            acc = 0
+            for pr in rl['prs']:
+                if off < acc + pr['data_len']:
+                    layout['fields'].append((pr['data_pos'] + off - acc, min(ln, acc + pr['data_len'] - off), name))
+                    break
+                acc += pr['data_len']
     return by, layout
 
 
